@@ -25,6 +25,7 @@ NOT_COVERED = ["set_many's list of failed keys, get_many / gets_many result dict
 BUDGET = {"quick": 40, "thorough": 180}
 FILTER_BY_PROPERTY = True
 REPLAY_UNDECIDED = True
+DEPENDS = ["C01", "C02"]    # the simulation argument composes these per-call facts with C01 (own reply) and C02 (exact command)
 
 
 def build(E, tier):
